@@ -91,6 +91,10 @@ type Exec struct {
 	idxLog      *[]IdxT           // collector of (index, sequence) pairs read while evaluating a quantifier body
 	probe       *[]SeqRef         // collector of sequences indexed by a probe variable (see seqsOf)
 	noWD        bool              // suppress well-definedness obligations (while assuming the function's own requires)
+	inQBody     int                 // >0 while a quantifier body is being evaluated (frozen state)
+	lastPre     []string            // rendered preconditions of the pure application being processed
+	lastPreQ    bool
+	sideFacts   map[string][]string // trigger symbol -> contract instances (requires ==> ensures) of pure applications made inside quantifier bodies
 	view        string            // proof view being verified (see Clause.Group)
 	curGuard    string            // guard of the spec sub-expression being evaluated (see SpecEnv.g)
 	withQ       bool              // include raw quantified assumptions in queries (second attempt)
@@ -526,9 +530,21 @@ func (x *Exec) instrs(fr *Frame, st *State, b *ssa.BasicBlock, from int) {
 				// deep paths: drop infeasible branches (one short solver call each) to keep path enumeration tractable
 				if x.prove(st, cond.S) {
 					if x.prove(st, sNot(cond.S)) {
-						// both the condition and its negation follow: the path condition is contradictory (a contract is
-						// inconsistent, or the path is dead): flagged, because everything after it would be proved vacuously
-						x.emit(fr, st, "vacuity:contradictory-path@"+x.label(fr.fn, in, "if"), "vacuity", atom("false"), in).Cover = true
+						// both the condition and its negation follow: the path condition is contradictory.  If it is still
+						// contradictory without the branch conditions taken so far, assumptions (contracts, invariants, facts)
+						// contradict each other: flagged, because everything after it would be proved vacuously.  Otherwise an
+						// earlier branch (taken before pruning starts) was simply infeasible: the path is dead, drop it.
+						s3 := st.clone()
+						var pc []PCItem
+						for _, it := range s3.pc {
+							if !it.Br {
+								pc = append(pc, it)
+							}
+						}
+						s3.pc = pc
+						if x.prove(s3, "(distinct 0 0)") {
+							x.emit(fr, st, "vacuity:contradictory-path@"+x.label(fr.fn, in, "if"), "vacuity", atom("false"), in).Cover = true
+						}
 						x.endPath()
 						return
 					}
@@ -542,9 +558,11 @@ func (x *Exec) instrs(fr *Frame, st *State, b *ssa.BasicBlock, from int) {
 			}
 			s2 := st.clone()
 			st.assume(cond.S)
+			st.pc[len(st.pc)-1].Br = true
 			st.trace = append(st.trace, x.where(in)+":T")
 			x.block(fr, st, b.Succs[0], b)
 			s2.assume(sNot(cond.S))
+			s2.pc[len(s2.pc)-1].Br = true
 			s2.trace = append(s2.trace, x.where(in)+":F")
 			x.block(fr, s2, b.Succs[1], b)
 			return
